@@ -69,6 +69,30 @@ check('C15', 'history sim',
       'DESIGN.md 3.4')
 
 
+ENGINES.append(
+    {'name': 'library-store sim', 'path': '/verif/checks/store.py',
+     'serves_properties': ['C12', 'C13', 'C18'],
+     'kind_free_text': 'real loader / merger / writer over an in-memory file system (SimFS behind the module globals open/os of Library, Scheme, DataDir) with a fault plan (lost file, EACCES, EIO on open, EIO on read, transient errors, injected conflicts, double spellings, missing units); seeded worlds (include trees, unit presentations) and operation histories; hand-written reference model of union/conflict/hull'})
+
+check('C13', 'library-store sim',
+      'Seeded search over multi-file stores and merge histories: the data of a few groups are split over an include tree (data may repeat across files), then loads, include permutations and re-nestings, library and correlation merges with/without overwrite, repeated merges, and injected faults (conflicting datum, double spelling, lost/unreadable files, transient I/O errors) are run against the real loader through an in-memory file system and against a small reference model (union, conflict unless overwrite, hull of ranges). Checked after every step: field-level refinement, evaluation equal to a single-file rendering, order-independence, idempotence, bit-identical target after a rejected correlation merge, untouched bystander libraries and merge sources, no library returned under an I/O fault. Sampling, not proof.',
+      'Trusts the reference model (storegen.py) as the meaning of "union"; worlds share one reference temperature (as the property states), <= 8 groups, <= 6 files, depth <= 3, <= 25 operations; library-level merge is not required to be atomic (only the correlation-level clause is stated).',
+      'deterministic simulation: in-memory file system with fault plan + seeded merge histories, refinement against a reference model after every step',
+      'DESIGN.md 3.2')
+
+check('C12', 'library-store sim',
+      'Seeded search over unit presentations of one abstract world: file-level default-unit blocks (different per file, parent vs include), explicit unit strings with SI prefixes, non-dimensional keys and mixtures, per-file temperature units; each presentation is loaded through the in-memory file system and compared field by field with the model and pairwise on a temperature grid; every returned value must be a plain number; a file whose dimensional value is left without any unit (fault) must be rejected. Sampling, not proof.',
+      'Trusts the harness unit factors (cal = 4.184 J, eV, Avogadro, prefixes, R = 8.314472) and its exact decimal rendering; each datum appears once per world so that cross-presentation equality is the only question asked; prefixed temperature units only where the conversion is exact.',
+      'deterministic simulation: in-memory file system, per-file unit context as cross-file state, missing-unit fault injection, model refinement',
+      'DESIGN.md 3.2')
+
+check('C18', 'library-store sim',
+      'Write-then-read through the store: correlations loaded from seeded worlds (absent parts, zero-valued parts, large/small magnitudes) are formatted with yaml_format in random unit choices and read back both directly and embedded as a group entry of a library file in the in-memory file system; fields must agree exactly (non-dimensional) or to six significant digits (dimensional, temperatures). Every group of every shipped library is exported in 4 unit sets x 2 temperature units (that finite part is exhaustive in the thorough tier, strided in quick).',
+      'Trusts the comparison tolerances (6e-6 relative for six written digits); the embedded read-back uses a fixed indentation and group name.',
+      'deterministic simulation: write-then-read (durability) over an in-memory file system; exhaustive over shipped groups',
+      'DESIGN.md 3.2')
+
+
 def build(claimed):
     man = {
         'version': 1,
